@@ -171,6 +171,8 @@ def compare(ml, model, step, owner=None):
         raise Violation('model:entries', f'after {step}: library {texts} model {[render_entry(e) for e in model]}')
     if n != len(model) or beyond is not None:
         raise Violation('model:length', f'after {step}: length {n}, item(length)={beyond!r}, model {len(model)}')
+    if model and not ml.wellformed:
+        raise Violation('model:accepted-list-not-wellformed', f'after {step}: {text!r} holds only accepted media but wellformed is False (its owner rule would vanish)')
     expitems = [(e['type'] if simple(e) else '') for e in model]
     if [i.lower() for i in items] != [i.lower() for i in expitems] or [t.lower() for t in types] != [i.lower() for i in expitems]:
         raise Violation('model:item', f'after {step}: items {items} types {types} model {expitems}')
@@ -477,3 +479,23 @@ def check_setitem_dup(case, ctx):
 
 
 SUBS.append(Sub('setitem_dup', check_setitem_dup, enumerate=setitem_dup_cases, shards_quick=1, shards_thorough=1))
+
+
+# --------------------------------------------------------------------------- iteration versus indexing: the objects (listed finding)
+
+
+def itertypes_cases(tier):
+    yield {'text': 'print, tv'}
+    yield {'text': 'screen and (color), /*c*/ tv'}
+
+
+def check_itertypes(case, ctx):
+    ml = MediaList(case['text'])
+    ctx.case(case['text'], True, case)
+    a = [type(x).__name__ for x in ml]
+    b = [type(ml[i]).__name__ for i in range(len(ml))]
+    if a != b:
+        raise Violation('protocol:iteration-yields-wrappers', f'{case["text"]!r}: iteration yields {a}, indexing {b}')
+
+
+SUBS.append(Sub('itertypes', check_itertypes, enumerate=itertypes_cases, shards_quick=1, shards_thorough=1))
